@@ -155,6 +155,7 @@ Definition inv_handler (h : hkind) (o : reply) : option (list write) :=
   | HLenient, RErr EHandler t => Some [WS t]
   | HLenient, RErr EPanic t => Some [WS t]
   | HConst, ROk _ _ => Some []
+  | HAck, ROk _ _ => Some []
   | HInt, ROk _ m => Some [WI (mI m)]
   | HInt, RErr EHandler _ => Some [WI 13%Z]
   | HInt, RErr EPanic _ => Some [WI 666%Z]
